@@ -632,7 +632,7 @@ def run(tier):
     chk.coverage = {
         'evaluations': len(progs),
         'distinct_nontrivial': len(nontrivial),
-        'rule': 'shapes: every nesting chain of {if, if-else, if-elif, if-elif-else, while, for, for-with-index} x child position to depth 3 with break/continue '
+        'rule': '+ round 7: variables, parameters and loop variables named true / false / null; shapes: every nesting chain of {if, if-else, if-elif, if-elif-else, while, for, for-with-index} x child position to depth 3 with break/continue '
                 'flags per loop level (depth 3 sampled 1:4 in quick), at global scope or inside a function; random: grammar-generated programs to nesting 5 with '
                 'up to 3 functions, function definitions moved inside global blocks in 40%; forcore: one for loop (with / without index variable, over an array '
                 'global or an arrayNew call) whose body is a fragment tree with break / continue of the for at top level and in if branches; fornest: sequences of fragment statements and for loops nested '
